@@ -18,6 +18,7 @@ META = {
     "encoded": ["csr.bus.Multiplexer.__init__", "csr.bus.Multiplexer.elaborate", "csr.bus.Multiplexer._Shadow.add",
                 "csr.bus.Multiplexer._Shadow.prepare", "csr.bus.Multiplexer._Shadow.decode_address",
                 "csr.bus.Multiplexer._Shadow.encode_offset"],
+    "also": 'same family as C04; miter restricted to data width <= 16 and <= 4 chunks',
     "bounds": "layout family of C04; 2 free frames for the ALL-sequence strobe clause; 2n+1 free frames for a "
               "complete n-chunk write (gaps 0..1, longer gaps via C04's lemmas); miter: D = 2*maxchunks+3 frames from "
               "reset, shadow_overlaps None vs {0,1,2,3}",
